@@ -57,10 +57,21 @@ ssize_t cgreen_pipe_read(int p, void *buf, size_t count)
     return read(p, buf, count);
 }
 
+/* The pipe a write has failed on, when the signal raised for that did not end the process */
+static int pipe_that_lost_a_message = -1;
+
 ssize_t cgreen_pipe_write(int p, const void *buf, size_t count)
 {
-    int pipe_write_result = write(p, buf, count);
+    int pipe_write_result;
     int status;
+
+    if (p == pipe_that_lost_a_message) {
+        /* Send nothing more, in particular no completion notification: the reader must
+           not take what it got for everything there was */
+        return -1;
+    }
+
+    pipe_write_result = write(p, buf, count);
     if (pipe_write_result < 0) {
         if (errno == EWOULDBLOCK) {
             PANIC("Too many assertions within a single test.");
@@ -70,6 +81,8 @@ ssize_t cgreen_pipe_write(int p, const void *buf, size_t count)
         raise(SIGPIPE);
         wait(&status); /* Safe-guarding against a signalhandler for SIGPIPE, which
                           incidentally the test case for pipe block need to have... */
+        /* Still here: the code under test ignores or handles SIGPIPE */
+        pipe_that_lost_a_message = p;
     }
     return pipe_write_result;
 }
